@@ -405,3 +405,53 @@ Proof.
   injection Hp as <-. destruct (Nat.ltb i 2); reflexivity.
 Qed.
 Print Assumptions C17_concurrent_migrate_example_hypothesis.
+
+(* --- which table: the DC list a client builds from help.getConfig (telegram/common.go NewClient) ------------- *)
+From MTV Require Import Misc.DcConfig.
+
+(* for every option list and every id: PHONE_MIGRATE_X finds the address of the LAST non-CDN option for X -
+   host and port joined as net.JoinHostPort joins them -, and nothing if there is none *)
+Theorem C17_config_table : forall opts i,
+  dc_lookup i (config_table opts) = option_map addr_of (find (names i) (rev opts)).
+Proof. exact config_table_lookup. Qed.
+Print Assumptions C17_config_table.
+
+Theorem C17_config_last_option_wins : forall before o after i,
+  o_cdn o = false -> o_id o = i -> (forall x, In x after -> names i x = false) ->
+  dc_lookup i (config_table (before ++ o :: after)) = Some (addr_of o).
+Proof. exact config_last_wins. Qed.
+Print Assumptions C17_config_last_option_wins.
+
+Theorem C17_config_cdn_never_a_target : forall opts i,
+  (forall o, In o opts -> o_id o = i -> o_cdn o = true) -> dc_lookup i (config_table opts) = None.
+Proof. exact config_cdn_only. Qed.
+Print Assumptions C17_config_cdn_never_a_target.
+
+Theorem C17_config_migrate : forall opts x,
+  process_err (config_table opts) s_phone_migrate_x (AInt x) =
+  match find (names x) (rev opts) with
+  | Some o => Ok (Switch (addr_of o))
+  | None => Ok NoSuchDC
+  end.
+Proof. exact config_migrate. Qed.
+Print Assumptions C17_config_migrate.
+
+(* "host:port", and "[host]:port" for a host with a colon in it (an IPv6 literal) *)
+Theorem C17_config_address_shape : forall h p,
+  (has_colon h = false -> join_host_port h p = (h ++ [58%N] ++ p)%list) /\
+  (has_colon h = true -> join_host_port h p = ([91%N] ++ h ++ [93%N; 58%N] ++ p)%list).
+Proof. exact join_host_port_shape. Qed.
+Print Assumptions C17_config_address_shape.
+
+Example C17_config_example :
+  let v4 := lit "149.154.167.51"%string in let v4b := lit "10.0.0.7"%string in let v6 := lit "2001:db8::e"%string in
+  let opts := [ {| o_id := 2; o_cdn := false; o_host := v4; o_port := 443 |};
+                {| o_id := 6; o_cdn := true; o_host := v4; o_port := 443 |};
+                {| o_id := 2; o_cdn := false; o_host := v4b; o_port := 8443 |};
+                {| o_id := 14; o_cdn := false; o_host := v6; o_port := 443 |} ] in
+  dc_lookup 2%Z (config_table opts) = Some (lit "10.0.0.7:8443"%string) /\
+  dc_lookup 6%Z (config_table opts) = None /\
+  dc_lookup 14%Z (config_table opts) = Some (lit "[2001:db8::e]:443"%string) /\
+  process_err (config_table opts) s_phone_migrate_x (AInt 14%Z) = Ok (Switch (lit "[2001:db8::e]:443"%string)).
+Proof. exact config_example. Qed.
+Print Assumptions C17_config_example.
